@@ -372,14 +372,17 @@ def build_module(c):
                 f = s[1]
                 kw = {} if f["init"] is None else {"init": f["init"]}
                 with m.FSM(domain="sync", **kw) as fsm:
-                    for nm in f["pre"]:
-                        fsm.ongoing(nm)
+                    early = {nm: fsm.ongoing(nm) for nm in f["pre"]}
                     for nm, body in f["states"]:
                         with m.State(nm):
                             emit(body)
                 sigs[f["st"]] = fsm.state
                 for nm, k in f["og"].items():
-                    sigs[k] = fsm.ongoing(nm)
+                    # ongoing() requested before the state is defined must be the signal the FSM drives: observe the
+                    # early handle, and require the late one to be the same object
+                    sigs[k] = early.get(nm, fsm.ongoing(nm))
+                    if fsm.ongoing(nm) is not sigs[k]:
+                        raise AssertionError("ongoing() returned two different signals for one state")
             elif s[0] == "next":
                 m.next = s[1]
             elif s[0] == "as":
